@@ -75,4 +75,130 @@ theorem alphabetTest_kernel (s : List Int) (bs : List Nat) :
   rw [hall]
   cases (bs.map fun b => Atom.int (b : Nat)).all (fun e => decide (e ∈ s.map Atom.int)) <;> simp [liftRes] <;> rfl
 
+/-! ### the set operations: `_testValue` of ConstraintsIntersection / ConstraintsUnion / ConstraintsExclusion
+
+The operands are handles (ints) and calling one (`constraint(value, idx)`) is a callback parameter of the translated
+code; the theorems hold for whatever the handles stand for (`r : Int → Constr`). -/
+
+/-- verdicts of the operands, combined as an intersection / a union / an exclusion does -/
+def allR : List Asn1.Constraint.Res → Asn1.Constraint.Res
+  | [] => .accept
+  | .accept :: t => allR t
+  | x :: _ => x
+def anyR : List Asn1.Constraint.Res → Asn1.Constraint.Res
+  | [] => .reject
+  | .accept :: _ => .accept
+  | .reject :: t => anyR t
+  | .leak :: _ => .leak
+def noneR : List Asn1.Constraint.Res → Asn1.Constraint.Res
+  | [] => .accept
+  | .accept :: _ => .reject
+  | .reject :: t => noneR t
+  | .leak :: _ => .leak
+
+theorem runAll_ofCons (cs : List Constr) (i : Option Nat) (v : CVal) :
+    runAll (Ops.ofCons cs) [] i v = allR (cs.map fun c => run c i v) := by
+  induction cs with
+  | nil => simp [Ops.ofCons, runAll, allR]
+  | cons c rest ih =>
+    simp only [Ops.ofCons, runAll, List.map_cons, ih]
+    cases run c i v <;> rfl
+
+theorem runAny_ofCons (cs : List Constr) (i : Option Nat) (v : CVal) :
+    runAny (Ops.ofCons cs) i v = anyR (cs.map fun c => run c i v) := by
+  induction cs with
+  | nil => simp [Ops.ofCons, runAny, anyR]
+  | cons c rest ih =>
+    simp only [Ops.ofCons, runAny, List.map_cons, ih]
+    cases run c i v <;> rfl
+
+theorem runNone_ofCons (cs : List Constr) (i : Option Nat) (v : CVal) :
+    runNone (Ops.ofCons cs) i v = noneR (cs.map fun c => run c i v) := by
+  induction cs with
+  | nil => simp [Ops.ofCons, runNone, noneR]
+  | cons c rest ih =>
+    simp only [Ops.ofCons, runNone, List.map_cons, ih]
+    cases run c i v <;> rfl
+
+theorem intersectionTest_loop1_spec (o : Int → Py.M Unit) (f : Int → Asn1.Constraint.Res)
+    (ho : ∀ k, o k = liftRes (f k)) : ∀ ks : Py.Tup,
+    GenK.intersectionTest_loop1 o ks = liftRes (allR (ks.map f))
+  | [] => rfl
+  | k :: rest => by
+    simp only [GenK.intersectionTest_loop1, List.map_cons, bind, Except.bind, ho k]
+    cases h : f k
+    · simp only [liftRes, allR]; exact intersectionTest_loop1_spec o f ho rest
+    · rfl
+    · rfl
+
+/-- what the union loop answers: left = an operand accepted (the function returns), right = all refused -/
+def unionOut : Asn1.Constraint.Res → Py.M (Sum Unit Unit)
+  | .accept => .ok (Sum.inl ())
+  | .reject => .ok (Sum.inr ())
+  | .leak => .error (.lib "TypeError")
+
+theorem unionTest_loop1_spec (o : Int → Py.M Unit) (f : Int → Asn1.Constraint.Res)
+    (ho : ∀ k, o k = liftRes (f k)) : ∀ ks : Py.Tup,
+    GenK.unionTest_loop1 o ks = unionOut (anyR (ks.map f))
+  | [] => rfl
+  | k :: rest => by
+    simp only [GenK.unionTest_loop1, List.map_cons, bind, Except.bind, ho k]
+    cases h : f k
+    · rfl
+    · have ih := unionTest_loop1_spec o f ho rest
+      simp only [liftRes, anyR]
+      rw [← ih]; rfl
+    · rfl
+
+theorem exclusionTest_loop1_spec (o : Int → Py.M Unit) (f : Int → Asn1.Constraint.Res)
+    (ho : ∀ k, o k = liftRes (f k)) : ∀ ks : Py.Tup,
+    GenK.exclusionTest_loop1 o ks = liftRes (noneR (ks.map f))
+  | [] => rfl
+  | k :: rest => by
+    simp only [GenK.exclusionTest_loop1, List.map_cons, bind, Except.bind, ho k]
+    cases h : f k
+    · rfl
+    · have ih := exclusionTest_loop1_spec o f ho rest
+      rw [ih]; rfl
+    · rfl
+
+theorem ofCons_isNil (cs : List Constr) (h : cs ≠ []) : (Ops.ofCons cs).isNil = false := by
+  cases cs with
+  | nil => exact absurd rfl h
+  | cons c r => rfl
+
+/-- `ConstraintsIntersection._testValue` as it is in the source: every operand, in order, the first refusal (or crash)
+    is the outcome - the model's evaluation of an intersection -/
+theorem intersectionTest_kernel (r : Int → Constr) (ks : Py.Tup) (hk : ks ≠ []) (i : Option Nat) (v : CVal) :
+    GenK.intersectionTest ks (fun k => liftRes (run (r k) i v)) = liftRes (run (intersection (ks.map r)) i v) := by
+  have hn : (Ops.ofCons (ks.map r)).isNil = false := ofCons_isNil _ (by simpa using hk)
+  unfold GenK.intersectionTest
+  rw [intersectionTest_loop1_spec _ (fun k => run (r k) i v) (fun _ => rfl)]
+  have e : (ks.map r).map (fun c => run c i v) = ks.map (fun k => run (r k) i v) := by
+    rw [List.map_map]; rfl
+  simp only [run, intersection, hn, Bool.false_eq_true, if_false, runAll_ofCons, e, bind, Except.bind]
+  cases allR (ks.map fun k => run (r k) i v) <;> rfl
+
+/-- `ConstraintsUnion._testValue`: the first operand that accepts wins; all refusing is a refusal -/
+theorem unionTest_kernel (r : Int → Constr) (ks : Py.Tup) (hk : ks ≠ []) (i : Option Nat) (v : CVal) :
+    GenK.unionTest ks (fun k => liftRes (run (r k) i v)) = liftRes (run (union (ks.map r)) i v) := by
+  have hn : (Ops.ofCons (ks.map r)).isNil = false := ofCons_isNil _ (by simpa using hk)
+  unfold GenK.unionTest
+  rw [unionTest_loop1_spec _ (fun k => run (r k) i v) (fun _ => rfl)]
+  have e : (ks.map r).map (fun c => run c i v) = ks.map (fun k => run (r k) i v) := by
+    rw [List.map_map]; rfl
+  simp only [run, union, hn, Bool.false_eq_true, if_false, runAny_ofCons, e, bind, Except.bind]
+  cases anyR (ks.map fun k => run (r k) i v) <;> rfl
+
+/-- `ConstraintsExclusion._testValue`: accepted exactly when every operand refuses -/
+theorem exclusionTest_kernel (r : Int → Constr) (ks : Py.Tup) (hk : ks ≠ []) (i : Option Nat) (v : CVal) :
+    GenK.exclusionTest ks (fun k => liftRes (run (r k) i v)) = liftRes (run (exclusion (ks.map r)) i v) := by
+  have hn : (Ops.ofCons (ks.map r)).isNil = false := ofCons_isNil _ (by simpa using hk)
+  unfold GenK.exclusionTest
+  rw [exclusionTest_loop1_spec _ (fun k => run (r k) i v) (fun _ => rfl)]
+  have e : (ks.map r).map (fun c => run c i v) = ks.map (fun k => run (r k) i v) := by
+    rw [List.map_map]; rfl
+  simp only [run, exclusion, hn, Bool.false_eq_true, if_false, runNone_ofCons, e, bind, Except.bind]
+  cases noneR (ks.map fun k => run (r k) i v) <;> rfl
+
 end Asn1.Kernels
